@@ -480,8 +480,11 @@ def _shape_of(a):
 
 def _first_diff(a, b, which):
     """Descend to the first differing sub-snapshot; return side `which` of it."""
-    while isinstance(a, tuple) and isinstance(b, tuple) and len(a) == len(b) and a[:1] == b[:1] \
-            and a[0] != 'nd':
+    for _ in range(32):
+        if not (isinstance(a, tuple) and isinstance(b, tuple) and len(a) == len(b)):
+            break
+        if a and a[0] == 'nd':
+            break
         for x, y in zip(a, b):
             if x != y:
                 a, b = x, y
